@@ -895,6 +895,9 @@ class RF24:
     def stop_carrier_wave(self):
         """Stops a continuous carrier wave test."""
         self._ce_pin.value = False
+        if not self.is_plus_variant:
+            # undo the CONFIG override of start_carrier_wave() before it is read back
+            self._reg_write(CONFIGURE, self._config)
         self.power = False
         self._rf_setup &= ~0x90
         self._reg_write(RF_PA_RATE, self._rf_setup)
